@@ -292,3 +292,60 @@ Proof.
   - apply uniq_f_set; [eapply uniq_sub; [exact U|exact S]|]. now apply uniq_chain.
   - now apply uniq_chain.
 Qed.
+(* frame: a subtree that neither contains nor lies below the updated node is untouched *)
+Lemma sub_update_other : forall base f g p,
+  ~ is_prefix base p -> ~ is_prefix p base -> sub (update_at f base g) p = sub f p.
+Proof.
+  induction base as [|n b IH]; intros f g p NP1 NP2.
+  - exfalso. apply NP1. exists p. reflexivity.
+  - destruct p as [|m r]; [exfalso; apply NP2; exists (n :: b); reflexivity|].
+    cbn [update_at sub]. rewrite (f_get_map_upd f n m (fun c => update_at c b g)).
+    destruct (Nat.eqb m n) eqn:E; [|reflexivity].
+    apply Nat.eqb_eq in E. subst m. destruct (f_get f n) as [ch|]; [|reflexivity]. cbn.
+    apply IH.
+    + intros [q Hq]. apply NP1. exists q. cbn. now rewrite Hq.
+    + intros [q Hq]. apply NP2. exists q. cbn. now rewrite Hq.
+Qed.
+
+Lemma sub_app f a b : sub f (a ++ b) = match sub f a with Some g => sub g b | None => None end.
+Proof. revert f; induction a as [|n r IH]; intros f; cbn; [reflexivity|]. destruct (f_get f n); [apply IH|reflexivity]. Qed.
+
+Lemma split_go_active : forall d cur root r1 r2 f0 pre,
+  split_go cur root d = (r1, r2) ->
+  sub f0 (pre ++ root) = Some cur ->
+  exists a, r1 = root ++ a /\ d = a ++ r2 /\ active f0 (pre ++ r1) = true /\
+            (r2 <> [] -> active f0 (pre ++ r1 ++ [hd 0 r2]) = false).
+Proof.
+  induction d as [|n d' IH]; intros cur root r1 r2 f0 pre H S; cbn in H.
+  - injection H as <- <-. exists []. rewrite app_nil_r. repeat split; auto.
+    + unfold active. now rewrite S.
+    + congruence.
+  - destruct (f_get cur n) as [ch|] eqn:G.
+    + apply IH with (f0 := f0) (pre := pre) in H.
+      * destruct H as (a & -> & -> & A & B). exists (n :: a). rewrite <- !app_assoc in *. cbn [app] in *. repeat split; auto.
+      * rewrite app_assoc, sub_app, S. cbn. now rewrite G.
+    + injection H as <- <-. exists []. rewrite app_nil_r. repeat split; auto.
+      * unfold active. now rewrite S.
+      * intros _. cbn [hd]. unfold active. rewrite app_assoc, sub_app, S. cbn. now rewrite G.
+Qed.
+
+(* base = sc ++ root is the deepest active proper ancestor of the destination *)
+Lemma split_active_spec f sc dst root rest cur :
+  dst <> [] -> sub f sc = Some cur -> split_active f sc dst = (root, rest) ->
+  root ++ rest = dst /\ rest <> [] /\ active f (sc ++ root) = true /\
+  (active f (sc ++ root ++ [hd 0 rest]) = true -> length rest = 1 /\ active f (sc ++ dst) = true).
+Proof.
+  intros Hd S H. unfold split_active in H. rewrite S in H.
+  destruct (split_go cur [] dst) as [r1 r2] eqn:E.
+  apply split_go_active with (f0 := f) (pre := sc) in E; [|now rewrite app_nil_r].
+  destruct E as (a & -> & -> & A & B). cbn [app] in *.
+  destruct r2 as [|x r2'].
+  - injection H as <- <-. rewrite app_nil_r in *.
+    assert (AN: a <> []) by (destruct a; [congruence|discriminate]).
+    split; [symmetry; apply (app_removelast_last 0 AN)|]. split; [discriminate|]. split.
+    + rewrite (app_removelast_last 0 AN) in A. unfold active in *. rewrite app_assoc, sub_app in A.
+      destruct (sub f (sc ++ removelast a)); [reflexivity|discriminate].
+    + intros _. split; [reflexivity|exact A].
+  - injection H as <- <-. split; [reflexivity|]. split; [discriminate|]. split; [exact A|].
+    intros X. cbn [hd] in *. rewrite (B ltac:(discriminate)) in X. discriminate.
+Qed.
